@@ -68,42 +68,37 @@ def CS.dump (s : CS) : String :=
 
 def optNat (o : Option Nat) : String := match o with | none => "panic" | some v => toString v
 
-/-- One circular-slice operation on the pair `(s, other)`. -/
-def circStep (st : CS × CS) (op : String) : Option ((CS × CS) × String) :=
-  let (s, o) := st
+def parseQOp (op : String) : Option (Option QOp) :=
   match op.splitOn ":" with
-  | ["p", x] =>
-    match x.toNat? with
-    | some x => match s.pushBack x with
-      | none => some (st, "panic")
-      | some s' => some ((s', o), ".")
-    | none => none
-  | ["q"] => match s.popFront with
-    | none => some (st, "panic")
-    | some (x, s') => some ((s', o), toString x)
-  | ["f"] => some (st, optNat s.front)
-  | ["i", p] =>
-    match p.toInt? with
-    | some p => some (st, optNat (s.index p))
-    | none => none
-  | ["r", n] =>
-    match n.toInt? with
-    | some n => match s.reserve n with
-      | none => some (st, "panic")
-      | some s' => some ((s', o), ".")
-    | none => none
-  | ["c"] => match s.clear with
-    | none => some (st, "panic")
-    | some s' => some ((s', o), ".")
-  | ["w"] => some (CS.swap s o, ".")
-  | ["a"] => some ((CS.deepAssign s o, o), ".")
-  | ["l"] => some (st, toString s.len)
-  | ["k"] => some (st, toString s.cap)
-  | ["S"] => some (st, match s.slices with
-    | none => "panic"
-    | some (a, b) => natsStr a ++ "|" ++ natsStr b)
-  | ["D"] => some (st, s.dump ++ "|" ++ o.dump)
+  | ["p", x] => (x.toNat?).map (fun x => some (.push x))
+  | ["q"] => some (some .pop)
+  | ["f"] => some (some .front)
+  | ["i", p] => (p.toInt?).map (fun p => some (.index p))
+  | ["r", n] => (n.toInt?).map (fun n => some (.reserve n))
+  | ["c"] => some (some .clear)
+  | ["w"] => some (some .swap)
+  | ["a"] => some (some .deepAssign)
+  | ["l"] => some (some .len)
+  | ["k"] => some (some .cap)
+  | ["S"] => some (some .slices)
+  | ["D"] => some none
   | _ => none
+
+def qobsStr : QObs → String
+  | .panic => "panic"
+  | .done => "."
+  | .val v => toString v
+  | .int v => toString v
+  | .two a b => natsStr a ++ "|" ++ natsStr b
+
+/-- One circular-slice operation on the pair `(s, other)` (`CS.apply`), or the raw dump `D`. -/
+def circStep (st : CS × CS) (op : String) : Option ((CS × CS) × String) :=
+  match parseQOp op with
+  | none => none
+  | some none => some (st, st.1.dump ++ "|" ++ st.2.dump)
+  | some (some q) =>
+    let (st', o) := CS.apply st q
+    some (st', qobsStr o)
 
 def runCirc : CS × CS → List String → List String → Option (List String)
   | _, [], acc => some acc.reverse
